@@ -219,6 +219,9 @@ def main(argv=None):
             harness_errors.append("refuted without parsable counterexample: %s: %s" % (n, r.get("message", "")[:500]))
         if r.get("verdict") == "ERROR":
             harness_errors.append("worker error in %s: %s" % (n, r.get("message", "")[:800]))
+        if r.get("verdict") == "PRE_UNSAT" and getattr(o, "is_cube", False) and not o.examples:
+            r["verdict"] = "EMPTY_CUBE"
+            continue
         if r.get("verdict") == "PRE_UNSAT" and getattr(o, "excluded", None):
             # the whole input space of this obligation lies inside a recorded known-finding region (witness replayed above)
             r["verdict"] = "EXCLUDED_KNOWN_FINDING"
@@ -247,7 +250,7 @@ def main(argv=None):
     for r in results.values():
         counts[r.get("verdict")] = counts.get(r.get("verdict"), 0) + 1
     n_obl = len(obls)
-    discharged = sum(1 for r in results.values() if r.get("verdict") == "CONFIRMED")
+    discharged = sum(1 for r in results.values() if r.get("verdict") in ("CONFIRMED", "EMPTY_CUBE"))
     inconclusive = sorted(n for n, r in results.items() if r.get("verdict") in ("UNKNOWN",))
     paths = sum(int(r.get("paths", 0) or 0) + int(r.get("twin_paths", 0) or 0) for r in results.values())
     queries = sum(int(r.get("queries", 0) or 0) for r in results.values())
